@@ -22,7 +22,7 @@ class Case:
     ops: list = dfield(default_factory=list)     # ("parse", data, pos) | ("dump", data, pos) | ("layout",)
     tag: str = ""
     history: list = dfield(default_factory=list)  # extra steps after loading `text`:
-    #   ("load", text) | ("load_align", text, align) | ("array", type name, n) | ("add_field", type name, field name, field type name, bits)
+    #   ("load", text) | ("load_align", text, align) | ("set_endian", e) | ("warm", hex data) | ("array", type name, n) | ("add_field", type name, field name, field type name, bits)
 
     def load(self):
         cs = structs.load(self.text, endian=self.endian, pointer=self.pointer, compiled=self.compiled, align=self.align)
@@ -31,6 +31,13 @@ class Case:
                 cs.load(h[1], compiled=self.compiled, align=self.align)
             elif h[0] == "load_align":      # a further definition loaded with its own alignment mode (mixed modes on one cstruct object)
                 cs.load(h[1], compiled=self.compiled, align=h[2])
+            elif h[0] == "set_endian":      # cs.endian reassigned after the definitions were loaded
+                cs.endian = h[1]
+            elif h[0] == "warm":            # one parse of `tname` before the following steps (caches filled under the configuration so far)
+                try:
+                    cs.resolve(self.tname)(bytes.fromhex(h[1]))
+                except Exception:  # noqa: BLE001
+                    pass
             elif h[0] == "array":
                 _ = cs.resolve(h[1])[h[2]]
             elif h[0] == "set_pointer":
